@@ -317,8 +317,9 @@ class MailboxWorld:
             appid = (appids or {}).get(name, "appid")
             # (sides with hex letters: relabelling attacks that change only the letter case need something to change)
             side = sides.get(name, [b"\xa1\xb2\xc3\xd4\xe5", b"\xf6\xe7\xd8\xc9\xb0", b"\x0a\x1b\x2c\x3d\x4e"][i % 3])
+            # (dilation: one flag for all, or per client - a wormhole created without it is an "old peer" to one that dilates)
             self.clients[name] = Client(self, name, appid, mode, side, versions=(versions or {}).get(name),
-                                        dilation=dilation)
+                                        dilation=dilation.get(name, False) if isinstance(dilation, dict) else dilation)
         self.settle()
 
     def shutdown(self):
